@@ -7,6 +7,7 @@ mod apath_ops;
 mod backupops;
 mod diffops;
 mod gcops;
+mod raceops;
 mod rawarchive;
 mod restoreops;
 mod roundtrip;
@@ -19,10 +20,12 @@ fn main() {
     let out = match kind {
         "apath_batch" => apath_ops::run_batch(&sc),
         "stitch" => rawarchive::run_stitch(&sc),
+        "select" => rawarchive::run_select(&sc),
         "roundtrip" => roundtrip::run(&sc),
         "gc" => gcops::run(&sc),
         "backup" => backupops::run(&sc),
         "diff" => diffops::run(&sc),
+        "race" => raceops::run(&sc),
         "restore_raw" => restoreops::run(&sc),
         other => json!({"error": format!("unknown scenario kind {other}")}),
     };
